@@ -139,7 +139,7 @@ class Network:
                 # This is a new address, or our previous parent has been removed
                 self._all_addresses[address] = WalkableAddress(peer.public_key.key_to_bin(), service, new_style)
                 intro_cache = self.reverse_intro_lookup.get(peer, None)
-                if intro_cache is not None:
+                if intro_cache is not None and address not in intro_cache:
                     # Only extend a cached list: a new entry would lack the earlier introductions of this peer.
                     intro_cache.append(address)
 
